@@ -4146,16 +4146,14 @@ func (p *Brontide) chanFlushEventSentinel(chanCloser *chancloser.RbfChanCloser,
 	newStateChan := coopCloseStates.NewItemCreated.ChanOut()
 
 	sendChanFlushed := func() {
-		chanState := channel.StateSnapshot()
-
 		peerLog.Infof("ChannelPoint(%v) has been flushed for co-op "+
 			"close, sending event to chan closer",
 			channel.ChannelPoint())
 
-		chanBalances := chancloser.ShutdownBalances{
-			LocalBalance:  chanState.LocalBalance,
-			RemoteBalance: chanState.RemoteBalance,
-		}
+		chanBalances := coopCloseBalances(
+			channel.ChanType(), channel.IsInitiator(),
+			channel.StateSnapshot(),
+		)
 		ctx := context.Background()
 		chanCloser.SendEvent(ctx, &chancloser.ChannelFlushed{
 			ShutdownBalances: chanBalances,
